@@ -177,6 +177,7 @@ inline u64 stamp() noexcept {
 // ------------------------------------------------------------------------ values
 // 8-16 bytes: the unique id (little endian) followed by id-derived filler.
 constexpr u64 kCorrupt = u64{1} << 63;  // never a valid id: matches no insert in the checker
+constexpr u64 kEmptyId = 0xE0E0E0;      // every zero-length value (not unique: the checker does not need uniqueness)
 struct valbuf {
   std::array<std::byte, 16> b{};
   std::size_t n{0};
@@ -191,6 +192,7 @@ valbuf encode(u64 id) noexcept {
   return v;
 }
 u64 decode(const std::byte* p, std::size_t n) noexcept {
+  if (n == 0) return kEmptyId;
   if (n >= 8 && n <= 16) {
     u64 id;
     std::memcpy(&id, p, 8);
@@ -302,7 +304,7 @@ void do_get(round_ctx& rc, worker& w, rec& r, bool hold) {
     const std::size_t n = res.first->size();
     const std::size_t m = std::min<std::size_t>(n, copy.size());
     std::memcpy(copy.data(), res.first->data(), m);
-    r.value = decode(copy.data(), n <= 16 ? n : 0);
+    r.value = n <= 16 ? decode(copy.data(), n) : (kCorrupt | 7);
     if (owns) {  // without the lock the bytes may be freed memory: do not touch them again
       const u64 rereads = hold ? w.prng.range(2, 4) : 1;
       const u64 sel = hold ? w.prng.below(100) : 0;
@@ -350,7 +352,8 @@ void run_worker(round_ctx& rc, worker& w) {
     switch (p.kind) {
       case K_INSERT: {
         r.value = (static_cast<u64>(w.id + 1) << 32) | ++w.next_val;
-        const auto vb = encode(r.value);
+        auto vb = encode(r.value);
+        if (w.next_val % 7 == 3) { vb.n = 0; r.value = kEmptyId; }  // a zero-length value: a hit must still own the lock
         r.call = stamp(); lib_enter();
         r.ok = rc.db.insert(k, vb.view());
         lib_leave(); r.ret = stamp();
